@@ -192,3 +192,6 @@ for _p in ("C10", "C12", "C06"):
 # C14 beyond the single-writer model: two mutating goroutines with a pending rotation (implementation only)
 PROPS["C14"]["streams"] = PROPS["C14"]["streams"] + [S("twowriters", 32, 640, vm=(0, 0), timeout=3000)]
 PROPS["C14"]["rule"] = PROPS["C14"].get("rule", "") + "; twowriters (implementation only): StoreLogs on one goroutine, DeleteRange (whole log, suffix, prefix, far beyond) on another, both waiting for a queued rotation, woken in either order while the next rotation is queued; the log must equal the two calls applied in lock order, accept the next append and survive two Close/Open cycles"
+
+# C14 for any number of mutating threads: Props/C14Multi.v (no call past its awaitRotation check runs with a rotation queued)
+PROPS["C14"]["extra_props"] = ["C14Multi"]
